@@ -4,7 +4,7 @@ import keyword
 from typing import TYPE_CHECKING, Any, ClassVar
 
 from datamodel_code_generator.model import DataModel, DataModelFieldBase
-from datamodel_code_generator.model.base import UNDEFINED
+from datamodel_code_generator.model.base import UNDEFINED, escape_docstring
 from datamodel_code_generator.model.imports import (
     IMPORT_NOT_REQUIRED,
     IMPORT_NOT_REQUIRED_BACKPORT,
@@ -105,7 +105,7 @@ class TypedDict(DataModel):
             decorators=self.decorators,
             base_class=self.base_class,
             methods=self.methods,
-            description=self.description,
+            description=escape_docstring(self.description),
             is_functional_syntax=self.is_functional_syntax,
             all_fields=self.all_fields,
             **self.extra_template_data,
